@@ -224,6 +224,11 @@ pub fn execute(sc: &TScenario, mask: Mask) -> Outcome {
 #[allow(clippy::too_many_lines)]
 fn run(sc: &TScenario, mask: Mask, rx: (f64, f64), out: &mut Outcome, h: &mut Fnv) {
     let mut tr = Airplanes::new();
+    // "no range limit": JSON cannot carry an infinity, 1e308 stands for it in scenarios
+    let max_range = if sc.max_range >= 1e300 { f64::INFINITY } else { sc.max_range };
+    if max_range.is_infinite() {
+        out.probe("infinite_range_limit");
+    }
     let need_snap = mask.c12 || mask.c13 || mask.c15;
     let mut m12: BTreeMap<Addr, u32> = BTreeMap::new();
     let mut m13: BTreeMap<Addr, P13> = BTreeMap::new();
@@ -285,7 +290,7 @@ fn run(sc: &TScenario, mask: Mask, rx: (f64, f64), out: &mut Outcome, h: &mut Fn
                 // C14's checks read the records directly; the full Debug rendering of every record
                 // around every event is only needed by the other models
                 let before = if need_snap && !light { snap(&tr) } else { snap_keys(&tr) };
-                let ret = tr.action(frame, rx, sc.max_range);
+                let ret = tr.action(frame, rx, max_range);
                 let after = if need_snap && !light { snap(&tr) } else { snap_keys(&tr) };
                 h.str(hex);
                 h.u64(t);
@@ -358,7 +363,7 @@ fn run(sc: &TScenario, mask: Mask, rx: (f64, f64), out: &mut Outcome, h: &mut Fn
                                 // must start from an empty record: same as a fresh tracker fed this frame
                                 let mut fresh = Airplanes::new();
                                 if let Ok(f2) = Frame::from_bytes(&bytes) {
-                                    let _ = fresh.action(f2, rx, sc.max_range);
+                                    let _ = fresh.action(f2, rx, max_range);
                                 }
                                 let a = st.map(|s| format!("{s:?}"));
                                 let b = fresh.get(ICAO(*addr)).map(|s| format!("{s:?}"));
@@ -380,7 +385,7 @@ fn run(sc: &TScenario, mask: Mask, rx: (f64, f64), out: &mut Outcome, h: &mut Fn
                         };
                         ever_seen.insert(*addr);
                         if mask.c13 {
-                            check_c13(idx, hex, addr, me, rx, sc.max_range, st, m13.entry(*addr).or_default(), out, was_tracked, &before);
+                            check_c13(idx, hex, addr, me, rx, max_range, st, m13.entry(*addr).or_default(), out, was_tracked, &before);
                         }
                         if mask.c14 {
                             check_c14_attrs(idx, hex, addr, me, st, m14.entry(*addr).or_default(), out);
@@ -514,7 +519,7 @@ fn run(sc: &TScenario, mask: Mask, rx: (f64, f64), out: &mut Outcome, h: &mut Fn
         check_c14_tracks(events.len(), &tr, &m14, out);
     }
     if out.violation.is_none() && mask.c12 && filed.len() <= 64 {
-        isolation_replay(&events, sc.max_range, rx, &tr, &filed, out);
+        isolation_replay(&events, max_range, rx, &tr, &filed, out);
     }
     if ever_seen.len() >= 100 {
         out.probe("more_than_100_distinct_addresses");
